@@ -122,6 +122,28 @@ PROPS.update({
     },
 })
 
+def bounds_monitor(check):
+    """run another property's enumeration as a bounds monitor: only executions that died on a violated unsafe
+    precondition / out-of-range index (abort of the debug-assertion build, or such a panic) are C14's business"""
+    def part(tier):
+        rep = fe.run_ktmc(check, tier)
+        keep = []
+        for v in rep["violations"]:
+            d = v.get("desc", "")
+            if v.get("key") == "abort" or "unsafe precondition" in d or "index out of bounds" in d or "out of range for slice" in d:
+                keep.append(v)
+        counters = {k: val for k, val in rep["counters"].items() if not k.startswith("violations[")}
+        counters["monitored_executions[%s]" % check] = rep["evaluations"]
+        rep["counters"] = counters
+        rep["violations"] = keep
+        rep["violation_count"] = len(keep)
+        rep["samples"] = []
+        rep["notes"] = []
+        rep["outcomes"] = []
+        return rep
+    return part
+
+
 SCHED_ASSUME = COMMON_ASSUME + [
     "atomic blocks are the code between two intercepted operations (task start/exit, shim mutex lock, record taken, "
     "every scc map operation, shim atomics); races inside one block and memory orderings weaker than sequential "
@@ -149,7 +171,7 @@ PROPS.update({
     "C14": {
         "engine": "ktmc-sched",
         "technique": "write-log invariant checked on every explored worker interleaving and on an exhaustive configuration lattice; debug-assertion build as bounds monitor",
-        "parts": [ktmc("C14")],
+        "parts": [ktmc("C14"), bounds_monitor("C08"), bounds_monitor("C04"), bounds_monitor("C12"), bounds_monitor("C07cfg")],
         "rule": "every write (offset, length, capacity) issued to the mapped file is logged (hook in MMWriter::write_at, "
                 "which refuses an out-of-range write before it happens) on every schedule of the C05 exploration "
                 "(with a 2-byte delimiter on the header cases) and on a lattice k x 6 delimiters of length 0,1,2,4 x "
